@@ -1,6 +1,7 @@
 import ClusterVerif.Spec.C03
 import ClusterVerif.Spec.C03Block
 import ClusterVerif.Model.C03Alloc
+import ClusterVerif.Model.C03Wiring
 import Driver.Parse
 import Driver.PinParse
 namespace CV.C03
@@ -225,12 +226,118 @@ def answerSeq (ws : List String) : String :=
     | _, _, _, _, _, _, _, _, _, _ => "bad-case seq-parse"
   | _ => "bad-case seq"
 
+/-! ### whole histories over several CIDs (`C03 hist …`), replayed on `Model/C03Wiring.hstep` -/
+
+structure HistAcc where
+  s : HState
+  facs : List (Nat × Int × Int) := []      -- cid ↦ factors of the stored pin
+  failed : List String := []
+  diffs : List String := []
+  flags : List String := []
+  bad : Option String := none
+
+def updPeers (peers upd : List (Nat × MState)) : List (Nat × MState) :=
+  upd.foldl (fun ps u => if ps.any (·.1 == u.1) then ps.map (fun q => if q.1 == u.1 then u else q) else ps ++ [u]) peers
+
+def parseListing (s : String) : Option (List (Nat × List Nat)) :=
+  if s == "-" then some [] else
+  (s.splitOn ";").mapM (fun e => match e.splitOn "=" with
+    | [c, l] => do let c ← c.toNat?; let l ← nats l; pure (c, l)
+    | _ => none)
+
+def HistAcc.flag (a : HistAcc) (f : String) : HistAcc := if a.flags.contains f then a else { a with flags := a.flags ++ [f] }
+
+def failedNames (i : Input) (o : Output) : List String := ((clauses i o).filter (fun c => !c.2)).map (·.1)
+
+/-- one re-pin of `cid` (stored on `l`, factors `mn`/`mx`) away from `f`; `l3` = what is stored afterwards -/
+def histRepin (a : HistAcc) (cid : Nat) (l : List Nat) (mn mx : Int) (f : Nat) (l3 : Option (List Nat)) : HistAcc :=
+  let i3 := a.s.inputFor cid mn mx [f] []
+  if allowed i3 .err && l3 == some l then
+    -- the model's error arm: "the request fails and nothing changes"
+    ({ a with s := hstep a.s (.repin cid mn mx f .err) }).flag "repinerr"
+  else match l3 with
+    | none => { a with failed := a.failed ++ ["pin_lost"] }
+    | some l3 =>
+      let moved := !l3.contains f || (l3 == l && decide (i3.rmin ≤ ((healthyCurrent i3).length : Int)))
+      let a' := { a with s := hstep a.s (.repin cid mn mx f (.ok l3)),
+                         failed := a.failed ++ failedNames i3 (.ok l3) ++ (if moved then [] else ["failed_peer_replaced"]) ++
+                                   (if allowed i3 .err then ["failed_repin_changes_nothing"] else []),
+                         diffs := a.diffs ++ (if allowed i3 (.ok l3) || allowed i3 .err then [] else ["V" ++ toString f ++ "/" ++ toString cid]) }
+      a'.flag (if l3.contains f then "keep" else if l3 == l then "same" else "moved")
+
+def histStep (a : HistAcc) (op res : String) : HistAcc :=
+  if a.bad.isSome then a else
+  let arg := (op.drop 1).toString
+  if op.startsWith "M" then
+    match listOf parsePeer arg with
+    | some upd => { a with s := hstep a.s (.setPeers (updPeers a.s.peers upd)) }
+    | none => { a with bad := some "hist-M" }
+  else if op.startsWith "P" then
+    match arg.splitOn ":" with
+    | [c, mn, mx, ua] =>
+      match c.toNat?, mn.toInt?, mx.toInt?, nats ua, (if res == "err" then some Output.err else ((parseStored res).bind id).map Output.ok) with
+      | some cid, some mn, some mx, some ua, some o =>
+        let i := a.s.inputFor cid mn mx [] ua
+        if !positive i then { a with bad := some "hist-factors" } else
+        let realloc := !(a.s.allocsOf cid).isEmpty
+        -- (a stored allocation with between min and max healthy holders is a fixed point: `allowed` admits only that list — stable_of_count)
+        let a' := { a with s := hstep a.s (.decide cid mn mx [] ua o),
+                           facs := (match o with | .ok _ => (cid, mn, mx) :: a.facs.filter (·.1 != cid) | _ => a.facs),
+                           failed := a.failed ++ failedNames i o,
+                           diffs := a.diffs ++ (if allowed i o then [] else ["P" ++ toString cid ++ " model=" ++ showOut (allocate i)]) }
+        (match o with
+         | .ok _ => if realloc then a'.flag "realloc" else a'.flag "new"
+         | _ => a'.flag "err")
+      | _, _, _, _, _ => { a with bad := some "hist-P" }
+    | _ => { a with bad := some "hist-P" }
+  else if op.startsWith "V" then
+    match arg.toNat?, parseListing res with
+    | some f, some listing =>
+      -- every stored pin: allocated to f ⇒ re-pinned (f excluded, no user allocations); otherwise untouched
+      let a1 := a.s.stored.foldl (fun acc cl =>
+        let l3 := (listing.find? (·.1 == cl.1)).map (·.2)
+        if cl.2.contains f then
+          match a.facs.find? (·.1 == cl.1) with
+          | some (_, mn, mx) => histRepin acc cl.1 cl.2 mn mx f l3
+          | none => { acc with bad := some "hist-facs" }
+        else if l3 == some cl.2 then acc else { acc with failed := acc.failed ++ ["untouched_if_not_allocated"] }) a
+      if listing.all (fun e => a.s.stored.any (·.1 == e.1)) then a1 else { a1 with failed := a1.failed ++ ["pin_appeared"] }
+    | _, _ => { a with bad := some "hist-V" }
+  else if op.startsWith "U" then
+    match arg.toNat? with
+    | some cid => { a with s := hstep a.s (.unpin cid), facs := a.facs.filter (·.1 != cid) }
+    | none => { a with bad := some "hist-U" }
+  else { a with bad := some "hist-op" }
+
+def answerHist (ws : List String) : String :=
+  if ws.contains "panic" then "propfail call_panicked arm=hist" else
+  match splitArrow ws with
+  | some (d :: ops, ress) =>
+    match bool01 d with
+    | some d =>
+      if ops.length != ress.length then "bad-case hist-arity" else
+      let a := (ops.zip ress).foldl (fun a (x : String × String) => histStep a x.1 x.2)
+        { s := { desc := d, peers := [], stored := [], log := [] } }
+      match a.bad with
+      | some why => "bad-case " ++ why
+      | none =>
+        let arm := "hist" ++ String.join (a.flags.map ("-" ++ ·))
+        if !(a.s.peers.map (·.1)).Nodup then "bad-case hist-peers" else
+        if !a.failed.isEmpty then "propfail " ++ ",".intercalate a.failed.eraseDups ++ " arm=" ++ arm
+        -- the theorem's conclusion, evaluated: every logged decision holds at the time it was made
+        else if !a.s.log.all (fun io => holds io.1 io.2) then "propfail history_decision_fails arm=" ++ arm
+        else if !a.diffs.isEmpty then "diff arm=" ++ arm ++ " step=" ++ ",".intercalate a.diffs
+        else "ok arm=" ++ arm ++ (if a.s.log.isEmpty then " trivial" else "")
+    | none => "bad-case hist-parse"
+  | _ => "bad-case hist"
+
 /-- answer for one case line (tokens after the leading "C03") -/
 def answer (ws : List String) : String :=
   if ws.head? == some "valid" then answerValid ws.tail else
   if ws.head? == some "raw" then answerRaw ws.tail else
   if ws.head? == some "block" then answerBlock ws.tail else
   if ws.head? == some "seq" then answerSeq ws.tail else
+  if ws.head? == some "hist" then answerHist ws.tail else
   match parseCase ws with
   | none => "bad-case"
   | some (i, o) =>
